@@ -7,6 +7,13 @@ ALL = ["C%02d" % i for i in range(1, 21)]
 
 # id -> (level category, technique, level text, level note, design ref)
 CHECKS = {
+    "C19": (
+        "model_checking",
+        "exhaustive enumeration of all strings up to a length bound x all chunkings x all offsets x all spans against a naive line/column reference",
+        "Every string of up to 7 (thorough 9) characters over {a, two-byte e-acute, LF, CR}, every way of feeding it to the cache in up to four pieces (empty pieces included), every character-boundary offset and every span on character boundaries: line number, line start, line/column and line extent are compared with a three-line naive reference and nothing may panic; offsets beyond the text must be refused. For the shorter strings the same is done through LRNonStreamingLexer::{line_col, span_lines_str} and through LexParseError::pp for a real lexing error and a real parsing error placed at every position.",
+        "A non-empty span ending exactly on a line start may or may not include that next line (the repository's own test pins 'includes'); the LF of a CR LF pair may carry the CR's column or the next.",
+        "DESIGN.md 3/C19",
+    ),
     "C08": (
         "model_checking",
         "bounded-exhaustive enumeration of grammars x inputs x {recovery off, on}; parse_actions with recording closures checked against the post-order of the returned value",
